@@ -8,7 +8,7 @@ position among the chunks moved to in flight (`nuOf`). Every chunk on the wire, 
 `idataFrag k i` of the universe for the right `(k, i)` (`toWire_idata`).
 -/
 namespace NetSys
-open SenderProofs Sender
+open SenderProofs SenderTsn Sender
 
 /-! ### a duplicate-free list of stream ids -/
 
